@@ -13,10 +13,10 @@ Definition it (h : string) (x : string) : item := [(bs "h", AS (bs h)); (bs "x",
 (* one item has the empty string as its key: the case that used to loop (fixed: 8ce83c4) *)
 Definition w_ops : list (str * op) :=
   [ (bs "c", OAddTable (bs "tbl") (bs "h") []);
-    (bs "c", OPut (bs "tbl") (it "" "1") None [] []);
-    (bs "c", OPut (bs "tbl") (it "b" "3") None [] []);
-    (bs "c", OPut (bs "tbl") (it "a" "2") None [] []);
-    (bs "c", OPut (bs "tbl") (it "c" "4") None [] []);
+    (bs "c", OPut (bs "tbl") (it "" "1") None [] [] false);
+    (bs "c", OPut (bs "tbl") (it "b" "3") None [] [] false);
+    (bs "c", OPut (bs "tbl") (it "a" "2") None [] [] false);
+    (bs "c", OPut (bs "tbl") (it "c" "4") None [] [] false);
     (bs "c", ODelete (bs "tbl") [(bs "h", AS (bs "b"))] None [] [] false) ].
 
 Definition w_client : client :=
@@ -72,11 +72,11 @@ Definition itg (h g x : string) : item := [(bs "g", AS (bs g)); (bs "h", AS (bs 
 Definition wi_ops : list (str * op) :=
   [ (bs "c", OAddTable (bs "tbl") (bs "h") []);
     (bs "c", OAddIndex (bs "tbl") (bs "gix") (bs "g") []);
-    (bs "c", OPut (bs "tbl") (itg "k1" "p" "1") None [] []);
-    (bs "c", OPut (bs "tbl") (itg "k2" "p" "2") None [] []);
-    (bs "c", OPut (bs "tbl") (itg "k3" "p" "3") None [] []);
-    (bs "c", OPut (bs "tbl") (itg "k0" "q" "4") None [] []);
-    (bs "c", OPut (bs "tbl") (it "k9" "5") None [] []) ].       (* not in the index: no "g" *)
+    (bs "c", OPut (bs "tbl") (itg "k1" "p" "1") None [] [] false);
+    (bs "c", OPut (bs "tbl") (itg "k2" "p" "2") None [] [] false);
+    (bs "c", OPut (bs "tbl") (itg "k3" "p" "3") None [] [] false);
+    (bs "c", OPut (bs "tbl") (itg "k0" "q" "4") None [] [] false);
+    (bs "c", OPut (bs "tbl") (it "k9" "5") None [] [] false) ].       (* not in the index: no "g" *)
 
 Definition wi_client : client :=
   match lookup (bs "c") (fst (run lang_match lang_update V2 [] wi_ops)) with Some c => c | None => new_client end.
